@@ -527,6 +527,11 @@ def verify(prog, fn, bb, sink, spec, _facts_override=None):
                 if rs and rs[-1][0] == "agg" and re.search(r"ops::range::RangeFrom$", rs[-1][1][1].get("adt", "") or ""):
                     o = fn.origin(rs[-1][1][2][0])
                     okb = bool(o) and o[-1][0] == "multi" and o[-1][1] == c
+            if not okb and call is not None and call.name in ("split_at_mut", "split_at_mut_unchecked", "split_at_mut_checked") and len(call.args) > 1:
+                # `let (filled, vacant) = buf.split_at_mut(c); read(vacant)`: the second half starts at the counter
+                projs = bs[-1][2] if len(bs[-1]) > 2 else []
+                o = fn.origin(call.args[1])
+                okb = any(pr[0] == "f" and pr[1] == 1 for pr in projs) and bool(o) and o[-1][0] == "multi" and o[-1][1] == c
             if not okb:
                 return False, "a stream read does not write into buf[counter..]"
         return True, "counter _%d is 0 or the sum of counts of reads into buf[counter..] (%d increment(s)): counter <= buf.len() by the read contract" % (c, nreads)
@@ -667,6 +672,18 @@ def verify(prog, fn, bb, sink, spec, _facts_override=None):
                 return False, "sibling %s has no call matching /%s/" % (g.key, spec["at_call"])
             for c in cs:
                 ok, how = verify(prog, g, c.bb, None, spec["guard"])
+                if not ok and spec["guard"].get("kind") == "variant_not":
+                    # the test may sit in a small helper (`let Some(key) = self.state.key() else { return .. }`): with such
+                    # helpers spliced in, every self-consistent path to the call must have switched on the value and taken
+                    # an edge other than the excluded variant
+                    from . import inline as _inline, pathsens as _pathsens
+                    view = _inline.inline(prog, g, 1, lambda caller, cal: cal.crate == caller.crate and not cal.unsafe and len(cal.blocks) <= 24)
+                    if view is not g:
+                        arr = _pathsens.arrivals(view, prog, c.bb)
+                        rx = spec["guard"].get("of_desc", ".")
+                        good = bool(arr) and all(any(re.search(rx, d) and nm not in (spec["guard"]["variant"], "otherwise") for d, nm in a.items()) for a in arr)
+                        if good:
+                            ok, how = True, "every self-consistent path to the call has matched the value against a variant other than `%s` (helpers inlined, %d arrival state(s))" % (spec["guard"]["variant"], len(arr))
                 if not ok:
                     return False, "in sibling %s: %s" % (g.key, how)
                 hows.append(how)
